@@ -29,6 +29,22 @@ def ends_with_separator(f, e: ast.expr) -> bool:
     if isinstance(e, ast.BinOp) and isinstance(e.op, ast.Add):
         r = e.right
         return 'separator' in norm(r).lower() or (isinstance(r, ast.Constant) and str(r.value).endswith('.'))
+    # '{}{}'.format(name, separator) / '%s%s' % (name, separator) / ''.join((name, separator))
+    if isinstance(e, ast.Call) and isinstance(e.func, ast.Attribute) and e.func.attr == 'format' and isinstance(e.func.value, ast.Constant) and isinstance(e.func.value.value, str) \
+            and not e.keywords and e.args:
+        t = e.func.value.value
+        if t.endswith('{}') and t.count('{') == len(e.args):
+            return 'separator' in norm(e.args[-1]).lower()
+        return t.endswith('.')
+    if isinstance(e, ast.BinOp) and isinstance(e.op, ast.Mod) and isinstance(e.left, ast.Constant) and isinstance(e.left.value, str):
+        t = e.left.value
+        args = e.right.elts if isinstance(e.right, ast.Tuple) else [e.right]
+        if t.endswith('%s') and t.count('%') == len(args):
+            return 'separator' in norm(args[-1]).lower()
+        return t.endswith('.')
+    if isinstance(e, ast.Call) and isinstance(e.func, ast.Attribute) and e.func.attr == 'join' and isinstance(e.func.value, ast.Constant) and e.func.value.value == '' \
+            and len(e.args) == 1 and isinstance(e.args[0], (ast.Tuple, ast.List)) and e.args[0].elts:
+        return 'separator' in norm(e.args[0].elts[-1]).lower()
     return False
 
 
@@ -40,27 +56,30 @@ def run(chk: Check) -> None:
     src = ab.params[1]  # port_namespace
 
     # 1. include together with exclude is rejected before anything is mutated
-    rej = [t for t in cfg.nodes if t.kind == 'test' and 'exclude is not None' in norm(t.ast.test) and 'include is not None' in norm(t.ast.test)]
-    ok = len(rej) == 1 and not branch_reaches_exit(cfg, rej[0], 'true')
+    # decision table over (exclude given, include given): with both given every way through absorb ends in a raise and touches nothing
+    # (however the test is spelled: ``a is not None and b is not None``, ``not (a is None or b is None)``, two nested ifs, a helper)
+    from ..decisions import paths_under
     muts = [n for n in cfg.nodes if (n.kind == 'stmt' and isinstance(n.ast, ast.Assign) and any(isinstance(t, ast.Subscript) and norm(t.value) == 'self' for t in n.ast.targets))
             or any(norm(c.func) == 'setattr' and norm(c.args[0]) == 'self' for c in _calls(n))]
-    ok = ok and bool(muts) and all(cfg.must_pass(cfg.entry, [m], lambda x: x in rej, edge_ok=no_exc) for m in muts)
+    both = paths_under(ff, {'exclude is None': False, 'include is None': False}, frozen=['exclude', 'include'])
+    ok = bool(muts) and bool(both) and all(p[-1] is cfg.raise_exit and not any(m in muts for m in p) for p in both)
+    one = paths_under(ff, {'exclude is None': True, 'include is None': False}, frozen=['exclude', 'include'])
+    ok = ok and any(p[-1] is cfg.exit for p in one)
     chk.ob('DOM-mutually-exclusive', ab, ok, 'include together with exclude raises before the destination is touched', kind='absorb-rejects-first')
     ep = prog.func('process_spec.ProcessSpec._expose_ports')
     ecfg = cfg_of(ep)
-    rej2 = [t for t in ecfg.nodes if t.kind == 'test' and 'exclude' in norm(t.ast.test) and 'include' in norm(t.ast.test)]
-    ok = len(rej2) == 1 and not branch_reaches_exit(ecfg, rej2[0], 'true')
     acts = [n for n in ecfg.nodes if any(last_name(c) in ('create_port_namespace', 'absorb') for c in _calls(n))]
-    ok = ok and all(ecfg.must_pass(ecfg.entry, [a], lambda x: x in rej2, edge_ok=no_exc) for a in acts)
-    chk.ob('DOM-mutually-exclusive', ep, ok, 'expose_* rejects the combination before creating the target namespace', kind='expose-rejects-first')
-    # the two rejections are siblings: what absorb() refuses, _expose_ports must already have refused (else the refused call has created the target namespace)
-    if rej and rej2:
-        a_at = chk.ctx.facts.analyse(ab).cond_atoms(rej[0].ast.test, True)
-        e_at = chk.ctx.facts.analyse(ep).cond_atoms(rej2[0].ast.test, True)
-        weaker = {('notnone', a[1]) if a[0] == 'T' else a for a in e_at}
-        chk.ob('DOM-mutually-exclusive', ep, e_at <= a_at | {a for a in e_at if a[0] == 'notnone'} and e_at == weaker,
-               f'_expose_ports rejects under the same condition as absorb (absorb: {sorted(a_at)}; _expose_ports: {sorted(e_at)}): a truthiness test on one of the rule sets lets exclude=() / '
-               'include=() through to absorb, which then raises after the namespace was created', node=rej2[0].ast, kind='rejection-tests-agree')
+    eff = chk.ctx.facts.analyse(ep)
+    # the same table for _expose_ports: what absorb() refuses, _expose_ports must already have refused -- under the SAME condition (both given,
+    # i.e. not None): a truthiness test on one of the rule sets leaves a path for exclude=() / include=() on which the target namespace is created
+    # before absorb raises
+    both2 = paths_under(eff, {'exclude is None': False, 'include is None': False}, frozen=['exclude', 'include'])
+    leak = [p for p in both2 if any(m in acts for m in p)]
+    ok = bool(acts) and bool(both2) and not leak
+    chk.ob('DOM-mutually-exclusive', ep, ok, 'expose_* rejects the combination (both given, whatever their truth value) before creating the target namespace',
+           node=next((m.ast for p in leak for m in p if m.kind == 'test'), None), kind='expose-rejects-first')
+    one2 = paths_under(eff, {'exclude is None': True, 'include is None': False}, frozen=['exclude', 'include'])
+    chk.ob('DOM-mutually-exclusive', ep, any(any(m in acts for m in p) for p in one2), 'one of the two alone is accepted', kind='rejection-tests-agree')
 
     # 2. copies only
     stores = [n for n in cfg.nodes if n.kind == 'stmt' and isinstance(n.ast, ast.Assign) and any(isinstance(t, ast.Subscript) and norm(t.value) == 'self' for t in n.ast.targets)]
@@ -107,11 +126,13 @@ def run(chk: Check) -> None:
                     chk.ob('SEG-exact-matching', f, True, f'"{norm(n)}": membership of the whole name', node=n, kind='membership')
     chk.floor('SEG-exact-matching', n_cmp, 3)
     sn = prog.func('ports.PortNamespace.strip_namespace')
+    from ..rules import Resolver
+    res_sn = Resolver(sn)
     slices = [n for n in ast.walk(sn.node) if isinstance(n, ast.Subscript) and isinstance(n.slice, ast.Slice) and n.slice.lower is not None
-              and norm(n.slice.lower).startswith('len(') and n.slice.upper is None]
+              and res_sn.text(n.slice.lower).startswith('len(') and n.slice.upper is None]
     sw = [c for c in calls_in_func(sn, 'startswith')] + [c for n in ast.walk(sn.node) if isinstance(n, (ast.ListComp, ast.GeneratorExp)) for g in n.generators for i in g.ifs
                                                          for c in ast.walk(i) if isinstance(c, ast.Call) and last_name(c) == 'startswith']
-    ok = len(slices) == 1 and bool(sw) and all(norm(slices[0].slice.lower) == f'len({norm(c.args[0])})' and norm(slices[0].value) == norm(c.func.value) for c in sw)
+    ok = len(slices) == 1 and bool(sw) and all(res_sn.text(slices[0].slice.lower) == f'len({res_sn.text(c.args[0])})' and norm(slices[0].value) == norm(c.func.value) for c in sw)
     chk.ob('SEG-exact-matching', sn, ok, 'a matching rule is passed down with exactly the matched prefix removed', kind='strip-prefix')
     # "with the source namespace's properties": absorb copies the mutable properties one by one through their setters; a setter that also writes ANOTHER
     # copied property makes the outcome depend on the order of the copy (alphabetical, from dir()): valid_type's setter switches dynamic on
@@ -244,7 +265,14 @@ def run(chk: Check) -> None:
            'absorb reports the names it absorbed', kind='reports-absorbed')
     # _expose_ports
     ab_call = [c for c in calls_in_func(ep, 'absorb')]
-    ok = len(ab_call) == 1 and [norm(a) for a in ab_call[0].args] == ['source', 'exclude', 'include', 'namespace_options']
+    ok = len(ab_call) == 1 and [norm(a) for a in ab_call[0].args[:3]] == ['source', 'exclude', 'include'] and len(ab_call[0].args) == 4
+    if ok and norm(ab_call[0].args[3]) != 'namespace_options':
+        # the options may travel through a local that stands for "the given options, or none": every value it can hold is the parameter
+        # itself (or a copy of it) or, where the parameter is None, an empty mapping
+        from ..rules import conditional_values as _cv
+        from ..facts import is_none as _is_none
+        vals_ = _cv(chk.ctx.facts.analyse(ep), norm(ab_call[0].args[3])) if isinstance(ab_call[0].args[3], ast.Name) else []
+        ok = bool(vals_) and all(norm(v) in ('namespace_options', 'dict(namespace_options)') or (norm(v) in ('{}', 'dict()') and _is_none(fs, 'namespace_options')) for fs, v in vals_)
     chk.ob('PROV-namespace-options', ep, ok, 'expose_* hands source, exclude, include and namespace_options to absorb unchanged', node=ab_call[0] if ab_call else None, kind='passed-through')
     efs = chk.ctx.facts.analyse(ep)
     from ..rules import conditional_values
